@@ -254,4 +254,25 @@ def run(C, R):
                            'it', '%s:%s' % (fn['file'], fn['line']))
                 elif takes:
                     R.ok('C08.R5', '%s|%s' % (fn['path'], path_cond(E, path)))
+                # cancel() on a live future hands back whatever the node still holds: it never answers None
+                # ("already transferred") while the value may still sit in the node
+                hfield = None
+                for a in F.raw['adts']:
+                    if a['path'] == fn.get('impl_adt'):
+                        for f in a['variants'][0]['fields']:
+                            if f['ty'].get('path') == 'std::option::Option' and f['name'] != 'wait_node':
+                                hfield = f['name']
+                live = hfield and E.variant_known(path.facts, ('init', (('P', 'self'), hfield))) == ('eq', 'Some')
+                if live:
+                    slot = E.read(type('SV', (), {'store': path.store})(), (('P', 'self'), 'wait_node', 'data', 'value'))
+                    own_takes = [e for e in path.events if e['k'] == 'take' and e['loc'] == (('P', 'self'), 'wait_node', 'data', 'value')]
+                    if slot == NONE and own_takes and path.ret == own_takes[-1]['old']:
+                        R.ok('C08.R5', '%s|live future: value slot emptied into the return value|%s' % (
+                            fn['path'], path_cond(E, path)))
+                    else:
+                        R.fail('C08.R5', [fn['path'], 'cancel-leaves-value-in-node'],
+                               'cancel() of a live send future returns %s while the node\'s value slot is %s: a value '
+                               'that is still parked is reported as transferred and then dropped with the future '
+                               '[%s]' % (fmt_val(path.ret), fmt_val(slot), path_cond(E, path)),
+                               '%s:%s' % (fn['file'], fn['line']), {'trace': trace_summary(path)})
         R.floor('C08.R5 cancel-fns[%s]' % cfg, ncancel, 1 if cfg == 'none' else 2)
